@@ -197,3 +197,78 @@ func B2I(b bool) int                    { if b { return 1 }; return 0 }
 // (a per-byte if-then-else term) when the alternatives have equal length.
 func PickStr(idx int, alts ...string) string { return alts[idx] }
 func PickInt(idx int, alts ...int) int       { return alts[idx] }
+
+// ---------------------------------------------------------------------------
+// threads (C17): control changes hands only at Yield; the scheduler's choices
+// are inputs named sched.<n> (symbolic in the engine, replayed natively).
+
+type zzThread struct {
+	fn      func()
+	resume  chan bool
+	started bool
+	done    bool
+}
+
+var (
+	zzThreads []*zzThread
+	zzCur     *zzThread
+	zzSched   = make(chan *zzThread)
+	zzStep    int
+	zzPanic   any
+)
+
+func Spawn(f func()) { zzThreads = append(zzThreads, &zzThread{fn: f, resume: make(chan bool)}) }
+
+func Yield(point string) {
+	if zzCur == nil {
+		return
+	}
+	t := zzCur
+	zzSched <- t
+	<-t.resume
+}
+
+func RunThreads() {
+	for {
+		var enabled []*zzThread
+		for _, t := range zzThreads {
+			if !t.done {
+				enabled = append(enabled, t)
+			}
+		}
+		if len(enabled) == 0 {
+			zzThreads = nil
+			zzStep = 0
+			return
+		}
+		idx := 0
+		if len(enabled) > 1 {
+			zzStep++
+			idx = Choice(fmt.Sprintf("sched.%d", zzStep), len(enabled))
+		}
+		t := enabled[idx]
+		zzCur = t
+		if !t.started {
+			t.started = true
+			go func(t *zzThread) {
+				defer func() {
+					if r := recover(); r != nil {
+						zzPanic = r
+					}
+					t.done = true
+					zzSched <- t
+				}()
+				<-t.resume
+				t.fn()
+			}(t)
+		}
+		t.resume <- true
+		<-zzSched
+		zzCur = nil
+		if zzPanic != nil {
+			p := zzPanic
+			zzPanic = nil
+			panic(p)
+		}
+	}
+}
